@@ -249,7 +249,25 @@ def run(ctx):
                 tv.encoding['units'] = 'days since 1990-01-01 00:00:00 +10:00'
                 ds.coords['time'] = tv
             src = os.path.join(tmp, f'in_{n}.nc')
+            if n % 3 == 2:
+                # coordinates with more than six significant decimals (moved by 2^-20 of a degree)
+                ds = gen.shift_coordinates(ds, dlon=2.0 ** -20, dlat=2.0 ** -20)
+                ctx.count('coordinates with many decimals')
+            fd_ = list(d.spec['kinds']['face'])
+            if len(fd_) == 2 and n % 2 == 0:
+                # variables along one of the two surface dimensions only
+                ds['row_area'] = xarray.DataArray(numpy.arange(ds.sizes[fd_[0]], dtype='f8') + 700, dims=[fd_[0]])
+                ds['column_width'] = xarray.DataArray(numpy.arange(ds.sizes[fd_[1]], dtype='f8') + 800, dims=[fd_[1]])
             enc = {v: {'_FillValue': None} for v in ds.variables if '_FillValue' not in ds[v].attrs and ds[v].dtype.kind == 'f'}
+            if n % 3 == 1:
+                # coordinates stored packed (32-bit integers with scale_factor / add_offset; every value is exactly representable
+                # in eighths): only a reader that decodes them sees degrees
+                for v in ds.variables:
+                    a_ = ds[v]
+                    if a_.dtype.kind == 'f' and (a_.attrs.get('units') in ('degrees_east', 'degrees_north') or a_.attrs.get('standard_name') in ('longitude', 'latitude')) \
+                            and not numpy.isnan(a_.values).any() and numpy.array_equal(a_.values * 8, numpy.round(a_.values * 8)):
+                        enc[v] = {'dtype': 'int32', 'scale_factor': 0.125, 'add_offset': -50.0, '_FillValue': None}
+                        ctx.count('coordinate stored packed')
             with warnings.catch_warnings():
                 warnings.simplefilter('ignore')
                 ds.to_netcdf(src, encoding=enc)
@@ -290,10 +308,27 @@ def run(ctx):
                     libs = [lib[:-4] + e for e in ('.shp', '.shx', '.dbf')]
                 else:
                     outs, libs = [out], [lib]
+                same_files = True
                 for a, b in zip(outs, libs):
                     if not os.path.exists(a) or file_bytes(a) != file_bytes(b):
                         ctx.report('property', f'export-geometry {fmt}: file {os.path.basename(a)} differs from the library output', case)
+                        same_files = False
                         break
+                # (and the exported file denotes exactly the geometry of the dataset: every coordinate of every cell)
+                if same_files and fmt in ('geojson', 'wkt'):
+                    try:
+                        if fmt == 'geojson':
+                            got_rings = [[(float(x), float(y)) for x, y in f_['geometry']['coordinates'][0][:-1]] for f_ in json.load(open(out))['features']]
+                        else:
+                            got_rings = [[(float(x), float(y)) for x, y in list(g_.exterior.coords)[:-1]] for g_ in shapely.from_wkt(open(out).read()).geoms]
+                    except Exception as e_:     # noqa: BLE001
+                        ctx.report('property', f'the exported {fmt} file cannot be read back: {type(e_).__name__}', case)
+                        continue
+                    if got_rings != rings:
+                        kbad = next((k_ for k_, (x_, y_) in enumerate(zip(got_rings, rings)) if x_ != y_), None)
+                        ctx.report('property', f'the {fmt} file written by the command does not hold the coordinates of the cells: polygon '
+                                   f'{kbad} is {got_rings[kbad][:3] if kbad is not None else len(got_rings)}.., the cell is '
+                                   f'{rings[kbad][:3] if kbad is not None else len(rings)}..', case)
             # the same through `python -m emsarray` in a fresh interpreter (first datasets of the run): a success and a failure
             if n < (1 if quick else 4):
                 mout = os.path.join(tmp, f'mod_{n}.wkt')
@@ -409,6 +444,19 @@ def run(ctx):
                 diff = datasets_equal(a, b)
                 if diff:
                     ctx.report('property', f'extract-points output differs from extract_dataframe: {diff}', case)
+                    continue
+                # (and the file holds what was asked for: every variable of the input that runs along a surface dimension, one
+                # row per point found)
+                gset = set(d.spec['kinds']['face'])
+                with warnings.catch_warnings():
+                    warnings.simplefilter('ignore')
+                    geom_names = {str(x) for x in ondisk.ems.get_all_geometry_names()}
+                expect_vars = sorted(str(v) for v in ondisk.data_vars if set(ondisk[v].dims) & gset and str(v) not in geom_names
+                                     and ondisk[v].attrs.get('bounds') is None and not any(str(v) == str(ondisk[c].attrs.get('bounds')) for c in ondisk.variables))
+                lost = [v for v in expect_vars if v not in a.variables]
+                if lost:
+                    ctx.report('property', f'extract-points wrote no values for {lost}, variables of the input that run along a surface '
+                               f'dimension (and so does the library call)', case)
             # ---- clip
             x0, x1 = sorted(rng.sample(sorted(set(xs)), 2)) if len(set(xs)) > 1 else (min(xs), max(xs) + 1)
             y0, y1 = sorted(rng.sample(sorted(set(ys)), 2)) if len(set(ys)) > 1 else (min(ys), max(ys) + 1)
